@@ -150,7 +150,7 @@ func judge(c *mon.Ctx, r *grp, s *slib, es []entry, b []byte, cls string) {
 			continue
 		}
 		c.Check(e.name, key("input-modified"), bytes.Equal(in, b), desc)
-		if e.isDec {
+		if o.isDec {
 			st := "after-error"
 			if o.err == nil {
 				st = "after-success"
@@ -499,7 +499,7 @@ func runPoints(c *mon.Ctx, r *grp, s *slib) {
 				}
 				o[pos] = bit
 				o[0] |= fl
-				judge(c, r, s, es, o, fmt.Sprintf("%s-infinity-with-payload-bit/byte%d", form, posClass(pos, n, r.lib.fpBytes)))
+				judge(c, r, s, es, o, fmt.Sprintf("%s-infinity-with-payload-bit/byte%s", form, posClass(pos, n, r.lib.fpBytes)))
 			}
 		}
 	}
@@ -513,7 +513,7 @@ func runPoints(c *mon.Ctx, r *grp, s *slib) {
 		if pos == 0 && mask&1 != 0 {
 			continue
 		}
-		judge(c, r, s, es, o, fmt.Sprintf("raw-zero-with-one-bit/byte%d", posClass(pos, su, r.lib.fpBytes)))
+		judge(c, r, s, es, o, fmt.Sprintf("raw-zero-with-one-bit/byte%s", posClass(pos, su, r.lib.fpBytes)))
 	}
 
 	// --- (h) truncation of valid encodings at every length ---
